@@ -146,15 +146,23 @@ theorem sampleBilinear_int (I : Pattern ℝ) (h w : Nat) (m n : ℤ) :
   simp only [floorReal_eq, Int.floor_intCast, NumReal.sub_eq, NumReal.mul_eq, NumReal.add_eq,
     NumReal.ofInt_eq, NumReal.one_eq, sub_self, sub_zero, mul_zero, zero_mul, mul_one, add_zero]
 
-theorem unnormalise (g : ℝ) (s : Nat) (hs : 2 ≤ s) :
-    ((Num.two * g / (Num.ofNat (s - 1) : ℝ) - Num.one + Num.one) / Num.two * (Num.ofNat (s - 1) : ℝ)) = g := by
-  have h1 : ((s - 1 : ℕ) : ℝ) ≠ 0 := by
-    have : 0 < s - 1 := by omega
-    exact_mod_cast this.ne'
+/-- normalising with `max (s - 1) 1` (as repaired) and un-normalising with `s - 1` (`align_corners=True`)
+gives the coordinate back; on an axis of length 1 the only coordinate is 0 -/
+theorem unnormalise (g : ℝ) (s : Nat) (hs : 1 ≤ s) (hg : s = 1 → g = 0) :
+    ((Num.two * g / (Num.ofNat (max (s - 1) 1) : ℝ) - Num.one + Num.one) / Num.two * (Num.ofNat (s - 1) : ℝ)) = g := by
   simp only [NumReal.sub_eq, NumReal.mul_eq, NumReal.add_eq, NumReal.div_eq, NumReal.ofNat_eq,
     NumReal.one_eq, NumReal.two_eq]
-  field_simp
-  ring
+  rcases Nat.lt_or_ge 1 s with h2 | h1
+  · have hmax : max (s - 1) 1 = s - 1 := by omega
+    have h1 : ((s - 1 : ℕ) : ℝ) ≠ 0 := by
+      have : 0 < s - 1 := by omega
+      exact_mod_cast this.ne'
+    rw [hmax]
+    field_simp
+    ring
+  · have hs1 : s = 1 := by omega
+    rw [hg hs1, hs1]
+    simp
 
 theorem pix_inbounds (I : Pattern ℝ) (h w : Nat) (y x : ℤ) (hy0 : 0 ≤ y) (hy : y < (h : ℤ))
     (hx0 : 0 ≤ x) (hx : x < (w : ℤ)) :
